@@ -178,7 +178,9 @@ func ruleSchemaMeta(c *Ctx) []Obligation {
 		}{
 			{"Name", func(t types.Type) bool { b, ok := t.Underlying().(*types.Basic); return ok && b.Kind() == types.String }, "string"},
 			{"Statement", func(t types.Type) bool { p, ok := t.(*types.Pointer); return ok && namedOf(p.Elem()) == stmtT }, "*Statement"},
-			{"Parent", func(t types.Type) bool { return namedOf(t) != nil && namedOf(t).Obj().Name() == "Node" && types.IsInterface(t) }, "Node"},
+			{"Parent", func(t types.Type) bool {
+				return namedOf(t) != nil && namedOf(t).Obj().Name() == "Node" && types.IsInterface(t)
+			}, "Node"},
 			{"Ext", func(t types.Type) bool {
 				sl, ok := t.Underlying().(*types.Slice)
 				if !ok {
@@ -418,7 +420,7 @@ func ruleSchemaScope(c *Ctx) []Obligation {
 		mustMethod                  bool // accessor required whenever the field exists
 	}
 	scopes := []scope{
-		{"typedef", "Typedefs", "", "Typedef", true},      // build() registers typedefs through the Typedefer interface
+		{"typedef", "Typedefs", "", "Typedef", true},             // build() registers typedefs through the Typedefer interface
 		{"grouping", "Groupings", "Grouping", "Grouping", false}, // FindGrouping uses FieldByName("Grouping")
 		{"identity", "Identities", "", "Identity", false},
 	}
